@@ -487,6 +487,42 @@ func c11BodyClosed(c *core.Ctx, rt *ssa.Function) {
 					fwd = true
 				}
 			}
+			// or under a flag handed back by a private helper that reports true only
+			// after it has forwarded the request
+			for _, cd := range facts.CondsAt(st.Block()) {
+				ex, ok := facts.Resolve(cd.V).(*ssa.Extract)
+				if !ok || !cd.Pos || ex.Type().String() != "bool" {
+					continue
+				}
+				call, ok := ex.Tuple.(*ssa.Call)
+				if !ok {
+					continue
+				}
+				h := call.Call.StaticCallee()
+				if h == nil || h.Blocks == nil || len(privateCallSites(h)) == 0 {
+					continue
+				}
+				all, any := true, false
+				for _, r := range returnsOf(h) {
+					fv := facts.RetVal(r, ex.Index)
+					if cst, isC := fv.(*ssa.Const); isC && cst.Value != nil && cst.Value.ExactString() == "false" {
+						continue
+					}
+					any = true
+					dominated := false
+					for _, cj := range facts.CallsIn(h) {
+						if cj.Common().IsInvoke() && cj.Common().Method.Name() == "RoundTrip" && facts.Dominates(cj, r) {
+							dominated = true
+						}
+					}
+					if !dominated {
+						all = false
+					}
+				}
+				if all && any {
+					fwd = true
+				}
+			}
 			c.Check(fwd, "C11.R8", "RoundTrip/disarm-after-forward", st.Pos(), "the body-close is disarmed only after a forward (the transport then owns closing)", "the deferred body-close is disarmed on a path where the request was not yet forwarded")
 		}
 	}
@@ -497,6 +533,27 @@ func c11Attempts(c *core.Ctx, rt *ssa.Function) {
 	for _, ci := range facts.CallsIn(rt) {
 		if ci.Common().IsInvoke() && ci.Common().Method.Name() == "RoundTrip" {
 			fwds = append(fwds, ci)
+			continue
+		}
+		// a private helper that forwards (exactly one forward site, not on a cycle)
+		// counts as the forward it contains
+		if h := ci.Common().StaticCallee(); h != nil && h.Blocks != nil && len(privateCallSites(h)) > 0 && h.Parent() == nil {
+			n := 0
+			cyc := false
+			for _, cj := range facts.CallsIn(h) {
+				if cj.Common().IsInvoke() && cj.Common().Method.Name() == "RoundTrip" {
+					n++
+					isF := func(in ssa.Instruction) bool { return in == ssa.Instruction(cj) }
+					if _, reach := facts.ReachesWithout(cj, isF, nil, nil); reach {
+						cyc = true
+					}
+				}
+			}
+			if n == 1 && !cyc {
+				fwds = append(fwds, ci)
+			} else if n > 1 || cyc {
+				c.Fail("C11.R9", "RoundTrip/forward-helper", ci.Pos(), "a helper called by RoundTrip forwards to the underlying transport more than once (or in a loop): the number of attempts is not bounded by the two forward sites")
+			}
 		}
 	}
 	if len(fwds) == 0 {
